@@ -50,7 +50,7 @@ theorem arity_mismatch_error (P : Platform) (f : Nat) (c : Expr) (args : List Ex
 theorem minmax_empty_error (P : Platform) (σ : Store) (r : Nat) (h : σ.arrs[r]? = some []) :
     (∃ m, callPure P .min [] σ = .error m) ∧ (∃ m, callPure P .max [] σ = .error m) ∧
     (∃ m, callPure P .min [.arr r] σ = .error m) ∧ (∃ m, callPure P .max [.arr r] σ = .error m) := by
-  simp [callPure, minmax, h]
+  simp [callPure, minmax, minmaxArgs, h]
 
 /-- the fold of min / max returns one of the numbers it was given -/
 theorem extremum_mem (better : F64 → F64 → Bool) (acc : F64) (vs : List Val) (m : F64)
